@@ -578,7 +578,7 @@ def c07(ctx):
     ctx.assumptions = ["a next() call that does not return within the per-case time-out (30 s) is a hang (the work is microseconds)"]
     for st in ("sequential", "interleaved", "weighted"):
         cfg = ('CONSTANTS MaxSrc = %d MaxLen = %d Strategy = "%s" Buggy = FALSE\nSPECIFICATION Spec\n'
-               'INVARIANTS OrderInv StrategyInv DoneInv NoHang\nPROPERTIES Terminates\nCHECK_DEADLOCK FALSE\n'
+               'INVARIANTS OrderInv StrategyInv DoneInv NoHang CompressInv\nPROPERTIES Terminates\nCHECK_DEADLOCK FALSE\n'
                % (ms if st != "weighted" else 3, ml, st))
         vlib.mc(ctx, "MultiGen", cfg, name="MultiGen-" + st)
     neg = ('CONSTANTS MaxSrc = 2 MaxLen = 2 Strategy = "interleaved" Buggy = TRUE\nSPECIFICATION Spec\n'
@@ -745,8 +745,11 @@ def tok_long(ctx, prefixes):
     cases = [{"kind": "long", "pattern": pat, "repeat": rep, "tab": tab}
              for (pat, rep) in (("ba", 35000), ("cgta", 17500), ("\t ab  cg\r\nta \n\nacgt", 3500), ("\r\na", 25000), ("tacg", 17500), ("ab cg ta", 9000), ("ä", 33000))]
     # ("\r\na": CR LF lies across byte 65536 - one character, one group)
+    # a chain of merges up to 128 bytes (token lengths beyond 63): a^2, a^4, ..., a^128 on words of 64-200 letters
+    chain = ["a" * (2 ** k) for k in range(1, 8)]
+    cases.insert(0, {"kind": "long", "pattern": " " + "a" * 64 + " " + "a" * 200 + " " + "a" * 128, "repeat": 3, "tab": chain})
     cpath = ctx.path("cases-long.ndjson")
-    vlib.write_ndjson(cpath, cases if not ctx.quick() else cases[:4])
+    vlib.write_ndjson(cpath, cases if not ctx.quick() else cases[:5])
     tok_judge(ctx, cpath, "long", prefixes)
 
 
